@@ -1,4 +1,4 @@
-(* C03 (e) — double buffer (blocking mode): one mutex, cv_not_empty / cv_not_full, both
+(* C03 (e) — double buffer (blocking and non-blocking mode): one mutex, cv_not_empty / cv_not_full, both
    notified with notify_ONE.  One reader, any number of writers, any capacity >= 1, every
    schedule, spurious wake-ups included.  Why notify_one on cv_not_full suffices although a read
    frees the WHOLE back buffer and wakes only one writer: the woken writer's write makes the back
@@ -10,7 +10,7 @@ Definition d_is_reader (p : dpc) : bool :=
   match p with DRSeg | DRLock | DRChk | DRWait | DRAsleep | DRWoken | DRSig | DRSeg2 | DRUnlock => true | _ => false end.
 Definition d_holds (p : dpc) : bool :=
   match p with
-  | DRChk | DRWait | DRSig | DRSeg2 | DRUnlock | DWChk | DWWait | DWSig | DWSeg2 | DWUnlock => true
+  | DRChk | DRWait | DRSig | DRSeg2 | DRUnlock | DWChk | DWWait | DWSig | DWSeg2 | DWUnlock | DWUnlockF => true
   | _ => false
   end.
 (* asleep (or committed to sleep) on cv_not_full / cv_not_empty *)
@@ -40,7 +40,7 @@ Record DInv (s : dsys) : Prop := {
           d_back s = 0 \/ exists u, (u < d_n s)%nat /\ d_t_ne (d_pc (d_thr s u)) = true;
 }.
 
-Lemma dinit_inv n cap need wk : 1 <= cap -> DInv (dinit n cap need wk).
+Lemma dinit_inv n cap nb need wk : 1 <= cap -> DInv (dinit n cap nb need wk).
 Proof.
   intros Hc. constructor; simpl.
   - exact Hc.
@@ -160,14 +160,25 @@ Proof.
     + pose proof (pick_waiter_none _ _ _ Heqo a Hal) as X. unfold d_rasleep in X. rewrite Ea in X. discriminate.
 Qed.
 
-Theorem d_reachable_inv n cap need wk sched : 1 <= cap ->
-  DInv (exec dsys dstep (dinit n cap need wk) sched).
+Theorem d_reachable_inv n cap nb need wk sched : 1 <= cap ->
+  DInv (exec dsys dstep (dinit n cap nb need wk) sched).
 Proof. intros H. apply inv_exec; [|now apply dinit_inv]. intros; eapply dstep_inv; eauto. Qed.
 
 Lemma d_const_step s t ch s' l : dstep s t ch = Some (s', l) -> d_n s' = d_n s /\ d_cap s' = d_cap s.
 Proof.
   unfold dstep. destruct (Nat.leb (d_n s) t); [discriminate|]. cbv zeta.
   destruct (d_pc (d_thr s t)); intros Hs; step_cases Hs; try discriminate; inv_some Hs; split; reflexivity.
+Qed.
+Lemma d_nb_step s t ch s' l : dstep s t ch = Some (s', l) -> d_nb s' = d_nb s.
+Proof.
+  unfold dstep. destruct (Nat.leb (d_n s) t); [discriminate|]. cbv zeta.
+  destruct (d_pc (d_thr s t)); intros Hs; step_cases Hs; try discriminate; inv_some Hs; simpl; congruence.
+Qed.
+Lemma d_nb_exec sched s : d_nb (exec dsys dstep s sched) = d_nb s.
+Proof.
+  revert s. induction sched as [|[t c] r IH]; intros s; simpl; [reflexivity|].
+  rewrite IH. unfold exec1; simpl. destruct (dstep s t c) as [[s' l]|] eqn:E; [|reflexivity].
+  eapply d_nb_step; eauto.
 Qed.
 Lemma d_const_exec sched s :
   d_n (exec dsys dstep s sched) = d_n s /\ d_cap (exec dsys dstep s sched) = d_cap s.
@@ -240,28 +251,28 @@ Proof.
     + specialize (Nw t Ht). unfold d_wasleep in Nw. rewrite E in Nw. discriminate.
 Qed.
 
-Theorem dbuf_no_deadlock_all n cap need wk sched : 1 <= cap ->
-  let s := exec dsys dstep (dinit n cap need wk) sched in
+Theorem dbuf_no_deadlock_all n cap nb need wk sched : 1 <= cap ->
+  let s := exec dsys dstep (dinit n cap nb need wk) sched in
   (exists t, (t < n)%nat /\ d_enabled s t) \/
   (forall t, (t < n)%nat -> d_done s t) \/
   (d_back s = 0 /\ forall t, (t < n)%nat -> d_pc (d_thr s t) = DRAsleep \/ d_done s t) \/
   (0 < d_back s /\ forall t, (t < n)%nat -> d_pc (d_thr s t) = DWAsleep \/ d_done s t).
 Proof.
-  intros Hc s. pose proof (d_progress s (d_reachable_inv n cap need wk sched Hc)) as H.
-  destruct (d_const_exec sched (dinit n cap need wk)) as [En _]. fold s in En. simpl in En.
+  intros Hc s. pose proof (d_progress s (d_reachable_inv n cap nb need wk sched Hc)) as H.
+  destruct (d_const_exec sched (dinit n cap nb need wk)) as [En _]. fold s in En. simpl in En.
   rewrite En in H. exact H.
 Qed.
 
 (* notify_ONE on cv_not_full suffices: as long as the reader has not finished (it keeps
    consuming), a writer asleep on cv_not_full never means that everybody is stuck. *)
-Theorem dbuf_notify_one_suffices_all n cap need wk sched w r : 1 <= cap ->
-  let s := exec dsys dstep (dinit n cap need wk) sched in
+Theorem dbuf_notify_one_suffices_all n cap nb need wk sched w r : 1 <= cap ->
+  let s := exec dsys dstep (dinit n cap nb need wk) sched in
   (w < n)%nat -> d_pc (d_thr s w) = DWAsleep ->
   (r < n)%nat -> d_is_reader (d_pc (d_thr s r)) = true ->
   exists t, (t < n)%nat /\ d_enabled s t.
 Proof.
   intros Hc s Hw Ew Hr Er.
-  destruct (dbuf_no_deadlock_all n cap need wk sched Hc) as [H|[H|[[_ H]|[_ H]]]]; fold s in H.
+  destruct (dbuf_no_deadlock_all n cap nb need wk sched Hc) as [H|[H|[[_ H]|[_ H]]]]; fold s in H.
   - exact H.
   - exfalso. specialize (H w Hw). unfold d_done in H. congruence.
   - exfalso. destruct (H w Hw) as [E|E]; [congruence|unfold d_done in E; congruence].
@@ -269,17 +280,17 @@ Proof.
 Qed.
 
 (* No lost wake-up, per sleeper *)
-Theorem dbuf_no_lost_wakeup_all n cap need wk sched t : 1 <= cap ->
-  let s := exec dsys dstep (dinit n cap need wk) sched in
+Theorem dbuf_no_lost_wakeup_all n cap nb need wk sched t : 1 <= cap ->
+  let s := exec dsys dstep (dinit n cap nb need wk) sched in
   (t < n)%nat ->
   (d_pc (d_thr s t) = DRAsleep ->
      d_back s = 0 \/ exists u, (u < n)%nat /\ d_t_ne (d_pc (d_thr s u)) = true) /\
   (d_pc (d_thr s t) = DWAsleep ->
      0 < d_back s \/ exists u, (u < n)%nat /\ d_t_nf (d_pc (d_thr s u)) = true).
 Proof.
-  intros Hc s Ht. pose proof (d_reachable_inv n cap need wk sched Hc) as [Hcap Hrole Hexcl Hown Hback Hnf Hne].
+  intros Hc s Ht. pose proof (d_reachable_inv n cap nb need wk sched Hc) as [Hcap Hrole Hexcl Hown Hback Hnf Hne].
   fold s in Hcap, Hrole, Hexcl, Hown, Hback, Hnf, Hne.
-  destruct (d_const_exec sched (dinit n cap need wk)) as [En _]. fold s in En. simpl in En.
+  destruct (d_const_exec sched (dinit n cap nb need wk)) as [En _]. fold s in En. simpl in En.
   rewrite En in Hnf, Hne. split; intros E.
   - apply (Hne t Ht). rewrite E. reflexivity.
   - apply (Hnf t Ht). rewrite E. reflexivity.
@@ -287,7 +298,7 @@ Qed.
 
 (* non-vacuity: capacity 2, three writers; two writers asleep on cv_not_full, the read frees the
    whole back buffer but wakes only ONE of them; the other stays asleep with room available *)
-Definition d_demo : dsys := dinit 5 2 4 (fun _ => 1%nat).
+Definition d_demo : dsys := dinit 5 2 false 4 (fun _ => 1%nat).
 Example d_one_of_two_sleepers_woken :
   let s := exec dsys dstep d_demo
     [(1,0);(1,0);(1,0);(1,0);(1,0);(1,0); (2,0);(2,0);(2,0);(2,0);(2,0);(2,0);
